@@ -116,7 +116,7 @@ func c07Component() (*Component, *c07Bus) {
 
 // ---- backlog / wedge scenarios: bounded worker pools and hand-off queues on the receive path ----
 
-const c07CallWatchdog = 1500 * time.Millisecond
+const c07CallWatchdog = 3 * time.Second // generous: the calls take microseconds; reached only by a wedged handler
 
 // c07GatedProvider is a DHCPv6 provider whose upstream does not answer until the harness opens the gate.
 type c07GatedProvider struct {
@@ -306,6 +306,16 @@ func c07Sequence(n []uint64, f []string) string {
 		}
 		if !ok {
 			return "hang"
+		}
+		// lock discipline: when a handler has returned, the session lock and the three FSM locks are free again
+		if st[0] != 7 {
+			if !s.mu.TryLock() {
+				return "lockleak-session"
+			}
+			s.mu.Unlock()
+		}
+		if !c07Returns(c07CallWatchdog, func() { s.lcp.FSM().State(); s.ipcp.FSM().State(); s.ipv6cp.FSM().State() }) {
+			return "lockleak-fsm"
 		}
 		if os.Getenv("VERIF_C07_DEBUG") != "" {
 			fmt.Fprintf(os.Stderr, "c07seq step %d kind %d -> phase %v lcp %v ipcp %v ipv6cp %v aaa %d\n", k, st[0], s.Phase,
